@@ -306,6 +306,36 @@ fn c02_reader_body<S: Shape>(cfg: Cfg, frag: usize) {
     std::mem::forget(searcher);
 }
 
+/// One Searcher-owned line buffer reused for two consecutive searches (as
+/// `Searcher::search_reader` does for every file): the second search must
+/// report exactly what the first did, including offsets and the byte count.
+pub(crate) fn c02_reader_reuse<S: Shape>() {
+    let cfg = c02_ctx_cfg();
+    let hit = any_hits::<S>();
+    let matcher = PlainMatcher::new::<S>(hit);
+    let searcher = build_searcher::<S>(&cfg, false);
+    let (want, complete) = model_events::<S>(&hit, &cfg);
+    let mut lb = LineBufferBuilder::new()
+        .capacity(2)
+        .line_terminator(term_of::<S>().as_byte())
+        .build();
+    let mut round = 0;
+    while round < 2 {
+        let mut sink = RecSink::new(S::HAY);
+        let r = {
+            let frag = FragReader { hay: S::HAY, pos: 0, calls: 0, chunk: [3; MAXREADS], err_at: usize::MAX, err_interrupted: false };
+            let rdr = LineBufferReader::new(frag, &mut lb);
+            ReadByLine::new(&searcher, &matcher, rdr, &mut sink).run()
+        };
+        assert!(r.is_ok(), "search returns Ok");
+        assert_log_is_model(&sink, &want, complete, evcap::<S>());
+        round += 1;
+    }
+    kani::cover!(true, "reach-end");
+    std::mem::forget(lb);
+    std::mem::forget(searcher);
+}
+
 fn c02_ctx_cfg() -> Cfg {
     let mut cfg = any_cfg(1);
     cfg.passthru = false;
